@@ -266,6 +266,7 @@ type outcome struct {
 	v    *Variant
 	p    *procResult
 	body string // snapshot without the status line
+	full string // histo --all: what follows "Full Table:" (rows, then the summary)
 	csv  []byte // CSV bytes (stdout in csv mode, the -o file in snap mode)
 }
 
@@ -374,6 +375,18 @@ func runVariant(c *run.Ctx, cs Case, s *Spec, a *Agg, v *Variant, dir string, re
 	if v.Mode == "csv" {
 		o.csv = p.stdout
 	} else {
+		if s.All {
+			// histo --all: screen, summary, status line, then "Full Table:", every row (no -n limit), the summary again
+			i := bytes.Index(p.stdout, []byte("Full Table:\n"))
+			if i < 0 || (i > 0 && p.stdout[i-1] != '\n') {
+				say(&finding{"all-table", "--all was given but the output has no 'Full Table:' line: " + run.Q(tail(string(p.stdout), 400))})
+				return o, false
+			}
+			o.full = string(p.stdout[i+len("Full Table:\n"):])
+			p.stdout = p.stdout[:i]
+			say(judgeFullTable(s, a, o.full))
+			c.Count("histogram_full_tables_judged", 1)
+		}
 		body, ok := cutStatus(p.stdout)
 		if !ok {
 			say(&finding{"snapshot-shape", fmt.Sprintf("snapshot output does not end with a newline: %s", run.Q(tail(string(p.stdout), 200)))})
@@ -395,6 +408,9 @@ func runVariant(c *run.Ctx, cs Case, s *Spec, a *Agg, v *Variant, dir string, re
 				say(f)
 			} else if histoRowsApplicable(s, a) {
 				c.Count("histogram_screens_read_back", 1)
+			}
+			if s.All && good {
+				say(judgeScreenIsPrefixOfFull(s, a, body, o.full))
 			}
 			if f := judgeTableGrid(s, a, body); f != nil {
 				say(f)
@@ -512,6 +528,8 @@ func runSpec(c *run.Ctx, cs Case, s *Spec, vs []*Variant, dir string) {
 					same = sameAnalyze(baseSnap.body, o.body)
 				}
 				switch {
+				case same && o.full != baseSnap.full:
+					report("full-table-differs-between-runs:"+s.hash(), "snapshot-identity", fmt.Sprintf("the 'Full Table' of histo --all differs between two runs of the same lines: %s%s", firstDiff(baseSnap.full, o.full), ctx(baseSnap)))
 				case same:
 					c.Count("snapshots_identical_pairs", 1)
 				case rendererFP(s.Cmd) != "" && squeeze(o.body) == squeeze(baseSnap.body):
